@@ -5,6 +5,7 @@ package main
 import (
 	"fmt"
 	"go/types"
+	"regexp"
 	"sort"
 	"strings"
 )
@@ -215,7 +216,9 @@ var pow2 = map[int]string{7: "128", 8: "256", 15: "32768", 16: "65536", 31: "214
 
 // TypeFacts returns the facts that every well-typed value satisfies (range of ints, slice header
 // sanity, refs allocated below cnt).
-func (m *Model) TypeFacts(v Val, cnt string) []string {
+var initReadRe = regexp.MustCompile(`^\(select (\(select )?[^ ()]+@0 `)
+
+func (m *Model) TypeFacts(v Val, cnt0 string) []string {
 	if v.T == nil {
 		return nil
 	}
@@ -223,6 +226,11 @@ func (m *Model) TypeFacts(v Val, cnt string) []string {
 	var fs []string
 	for i, c := range cs {
 		x := v.C[i]
+		cnt := cnt0
+		// a reference read from the initial heap exists in the pre-state (entry heap is well-formed)
+		if cnt != "" && initReadRe.MatchString(x) {
+			cnt = "cnt0"
+		}
 		switch c.Kind {
 		case "int":
 			fs = append(fs, fmt.Sprintf("(and (>= %s (- %s)) (< %s %s))", x, pow2[c.Bits-1], x, pow2[c.Bits-1]))
@@ -279,6 +287,7 @@ func (s *State) Clone() *State {
 type HeapKey struct {
 	Key  string // unique name
 	Sort Sort   // sort of the array
+	Ref  bool   // the stored component is a reference (pointer, map, slice backing array)
 }
 
 func (m *Model) heapGet(s *State, k HeapKey) string {
@@ -286,9 +295,24 @@ func (m *Model) heapGet(s *State, k HeapKey) string {
 		return t
 	}
 	name := fmt.Sprintf("%s@%d", k.Key, s.epoch)
-	m.ctx.Const(name, k.Sort)
+	if !m.ctx.declared[name] {
+		m.ctx.Const(name, k.Sort)
+		// the entry heap is well-formed: every reference stored in it exists in the pre-state
+		if s.epoch == 0 && (k.Ref || refKeys[k.Key]) {
+			switch {
+			case strings.HasPrefix(string(k.Sort), "(Array Int (Array Int Int"):
+				m.ctx.axioms = append(m.ctx.axioms, fmt.Sprintf("(forall ((a Int) (i Int)) (! (and (>= (select (select %s a) i) 0) (< (select (select %s a) i) cnt0)) :pattern ((select (select %s a) i))))", name, name, name))
+			case k.Sort == ArrSort(SInt, SInt):
+				m.ctx.axioms = append(m.ctx.axioms, fmt.Sprintf("(forall ((r Int)) (! (and (>= (select %s r) 0) (< (select %s r) cnt0)) :pattern ((select %s r))))", name, name, name))
+			}
+		}
+	}
 	return name
 }
+
+var refKeys = map[string]bool{}
+
+func isRefKind(k string) bool { return k == "ref" || k == "slice.arr" }
 
 func (m *Model) heapSet(s *State, k HeapKey, term string) {
 	// name the new version to keep terms small
@@ -353,7 +377,7 @@ func (m *Model) FieldKeys(structT types.Type, field int) []HeapKey {
 	cs := m.Flatten(f.Type())
 	out := make([]HeapKey, len(cs))
 	for i, c := range cs {
-		out[i] = HeapKey{fmt.Sprintf("F$%s$%s%s", m.TypeKey(structT), f.Name(), sanitize(c.Path)), ArrSort(SInt, c.Sort)}
+		out[i] = HeapKey{Key: fmt.Sprintf("F$%s$%s%s", m.TypeKey(structT), f.Name(), sanitize(c.Path)), Sort: ArrSort(SInt, c.Sort), Ref: isRefKind(c.Kind)}
 	}
 	return m.regKeys(out)
 }
@@ -363,7 +387,7 @@ func (m *Model) CellKeys(t types.Type) []HeapKey {
 	cs := m.Flatten(t)
 	out := make([]HeapKey, len(cs))
 	for i, c := range cs {
-		out[i] = HeapKey{fmt.Sprintf("C$%s%s", m.TypeKey(t), sanitize(c.Path)), ArrSort(SInt, c.Sort)}
+		out[i] = HeapKey{Key: fmt.Sprintf("C$%s%s", m.TypeKey(t), sanitize(c.Path)), Sort: ArrSort(SInt, c.Sort), Ref: isRefKind(c.Kind)}
 	}
 	return m.regKeys(out)
 }
@@ -373,7 +397,7 @@ func (m *Model) ElemKeys(t types.Type) []HeapKey {
 	cs := m.Flatten(t)
 	out := make([]HeapKey, len(cs))
 	for i, c := range cs {
-		out[i] = HeapKey{fmt.Sprintf("E$%s%s", m.TypeKey(t), sanitize(c.Path)), ArrSort(SInt, ArrSort(SInt, c.Sort))}
+		out[i] = HeapKey{Key: fmt.Sprintf("E$%s%s", m.TypeKey(t), sanitize(c.Path)), Sort: ArrSort(SInt, ArrSort(SInt, c.Sort)), Ref: isRefKind(c.Kind)}
 	}
 	return m.regKeys(out)
 }
@@ -388,14 +412,14 @@ func (m *Model) keySort(k types.Type) Sort {
 }
 
 func (m *Model) MapDomKey(mt *types.Map) HeapKey {
-	return m.regKeys([]HeapKey{{fmt.Sprintf("MD$%s$%s", m.TypeKey(mt.Key()), m.TypeKey(mt.Elem())), ArrSort(SInt, ArrSort(m.keySort(mt.Key()), SBool))}})[0]
+	return m.regKeys([]HeapKey{{Key: fmt.Sprintf("MD$%s$%s", m.TypeKey(mt.Key()), m.TypeKey(mt.Elem())), Sort: ArrSort(SInt, ArrSort(m.keySort(mt.Key()), SBool))}})[0]
 }
 
 func (m *Model) MapValKeys(mt *types.Map) []HeapKey {
 	cs := m.Flatten(mt.Elem())
 	out := make([]HeapKey, len(cs))
 	for i, c := range cs {
-		out[i] = HeapKey{fmt.Sprintf("MV$%s$%s%s", m.TypeKey(mt.Key()), m.TypeKey(mt.Elem()), sanitize(c.Path)), ArrSort(SInt, ArrSort(m.keySort(mt.Key()), c.Sort))}
+		out[i] = HeapKey{Key: fmt.Sprintf("MV$%s$%s%s", m.TypeKey(mt.Key()), m.TypeKey(mt.Elem()), sanitize(c.Path)), Sort: ArrSort(SInt, ArrSort(m.keySort(mt.Key()), c.Sort)), Ref: isRefKind(c.Kind) && m.keySort(mt.Key()) == SInt}
 	}
 	return m.regKeys(out)
 }
@@ -529,6 +553,9 @@ func (m *Model) sortOfHeapKey(k string) Sort {
 func (m *Model) regKeys(ks []HeapKey) []HeapKey {
 	for _, k := range ks {
 		heapKeySorts[k.Key] = k.Sort
+		if k.Ref {
+			refKeys[k.Key] = true
+		}
 	}
 	return ks
 }
